@@ -150,7 +150,7 @@ func runCase(cc grpc.ClientConnInterface, srv *scripted, c scase, measureLeak bo
 	if !ok {
 		panic("bad shape " + c.Shape)
 	}
-	cl := &call{ops: parseSrv(c.Srv), fin: parseFin(c.Fin), gate: make(chan struct{}), done: make(chan struct{})}
+	cl := &call{ops: parseSrv(c.Srv), fin: parseFin(c.Fin), amp: c.Amp, reuse: c.Reuse, gate: make(chan struct{}), done: make(chan struct{})}
 	id := srv.register(cl)
 	defer srv.calls.Delete(id)
 	var out outcome
@@ -222,6 +222,8 @@ func runCase(cc grpc.ClientConnInterface, srv *scripted, c scase, measureLeak bo
 		} else {
 			started = true
 			closedSend := false
+			var reused proto.Message
+			nsent := 0
 			t0 := time.Now()
 		loop:
 			for _, op := range cops {
@@ -230,11 +232,27 @@ func runCase(cc grpc.ClientConnInterface, srv *scripted, c scase, measureLeak bo
 					switch op.K {
 					case 's':
 						m := info.newReq(op.N)
+						if c.Reuse {
+							// one request object for all sends, overwritten as soon as SendMsg has returned
+							if reused == nil {
+								reused = m
+							} else {
+								proto.Reset(reused)
+								proto.Merge(reused, m)
+							}
+							m = reused
+						}
 						if err := cs.SendMsg(m); err != nil {
 							e = "serr"
 						} else {
 							e = "ok"
-							out.sentReq = append(out.sentReq, m)
+							nsent++
+							if c.Reuse {
+								proto.Reset(reused)
+								proto.Merge(reused, info.newReq(99))
+							} else {
+								out.sentReq = append(out.sentReq, m)
+							}
 						}
 					case 'c':
 						if err := cs.CloseSend(); err != nil {
@@ -261,7 +279,7 @@ func runCase(cc grpc.ClientConnInterface, srv *scripted, c scase, measureLeak bo
 					case 't':
 						e = "t" + canonMD(cs.Trailer())
 					case 'x':
-						quiesce(cl, len(out.sentReq), closedSend)
+						quiesce(cl, nsent, closedSend)
 						cancel()
 						e = "x"
 					case 'd':
@@ -269,7 +287,7 @@ func runCase(cc grpc.ClientConnInterface, srv *scripted, c scase, measureLeak bo
 							e = "slow" // the machine was too slow to reach this point well before the deadline
 							return
 						}
-						quiesce(cl, len(out.sentReq), closedSend)
+						quiesce(cl, nsent, closedSend)
 						<-ctx.Done()
 						e = "d"
 					}
@@ -317,8 +335,8 @@ func runCase(cc grpc.ClientConnInterface, srv *scripted, c scase, measureLeak bo
 		}
 	}
 	out.server = cl.serverLog()
-	if measureLeak {
-		out.leak = settle(base)
+	if measureLeak && c.Amp == 0 {
+		out.leak = settle(base) // (with the amplifier the harness's own release goroutine is still busy)
 	}
 	return out
 }
